@@ -28,11 +28,26 @@ func runStrings(lo, hi int64) {
 }
 
 // C09: every entropy length, every word count
-func runGates(tier string, seed int64) {
+func runGates(tier string, seed int64, phase string) {
 	r := newRng(seed, "gates")
 	langs := []int64{2, int64(r.intn(10)), 5}
 	if tier != "quick" {
 		langs = []int64{0, 1, 2, 3, 4, 5, 6, 7, 8, 9, -1, 10}
+	}
+	if phase == "extreme" {
+		// extreme word counts, each flushed before the call: a library that allocates or reads before
+		// gating may take the process down (run by the driver in a child process under a memory limit)
+		src := &scriptReader{fill: newRng(seed, "gates/bytes"), after: "data", quiet: true}
+		swapSource(src, "counting")
+		for _, lang := range langs {
+			for _, n := range extremeInts {
+				outW.Flush()
+				recNewMnemonic(n, lang, Event{"fam": "extreme"})
+				emit(Event{"op": "SourceTotal", "total": src.total})
+			}
+		}
+		swapSource(osRandReader(), "os")
+		return
 	}
 	for _, lang := range langs {
 		recByEntropy(nil, lang, Event{"fam": "nil"})
@@ -53,9 +68,6 @@ func runGates(tier string, seed int64) {
 		for n := int64(-4096); n <= 4096; n++ {
 			maybeCut()
 			recNewMnemonic(n, lang, Event{"fam": "count"})
-		}
-		for _, n := range extremeInts {
-			recNewMnemonic(n, lang, Event{"fam": "extreme"})
 		}
 	}
 	emit(Event{"op": "SourceTotal", "total": src.total})
@@ -148,7 +160,7 @@ func invalidUTF8Shapes() []string {
 		"\xf4\x90\x80\x80", "\xf8\x88\x80\x80\x80", "\xff", "\xfe\xff", "a\x00b", "\x00", "abandon \xff abandon", "\xe3\x81\x82\xe3\x81"}
 }
 
-func runRobust(tier string, seed int64) {
+func runRobust(tier string, seed int64, phase string) {
 	r := newRng(seed, "robust")
 	langs := []int64{math.MinInt64, -(1 << 32) - 1, -(1 << 31), -10, -1, 0, 1, 2, 3, 4, 5, 6, 7, 8, 9, 10, 11, 255, 256, 1 << 31, math.MaxInt64}
 	valid12 := sentence(indicesOf(r.bytes(16)), 2, " ")
@@ -185,9 +197,18 @@ func runRobust(tier string, seed int64) {
 		recToSeed(s, "", false, Event{"cls": "robust"})
 		recToSeed("", s, false, Event{"cls": "robust"})
 	}
+	if phase == "extreme" {
+		for _, l := range langs {
+			for _, n := range extremeInts {
+				outW.Flush()
+				recNewMnemonic(n, l, Event{"fam": "robust"})
+			}
+		}
+		return
+	}
 	// NewMnemonic: every count class x language class, on the default source and on failing sources
 	for _, l := range langs {
-		for _, n := range append([]int64{0, 1, 3, 9, 11, 12, 13, 15, 18, 21, 24, 25, 27, 48}, extremeInts...) {
+		for _, n := range []int64{0, 1, 3, 9, 11, 12, 13, 15, 18, 21, 24, 25, 27, 48} {
 			maybeCut()
 			recNewMnemonic(n, l, Event{"fam": "robust"})
 		}
